@@ -9,6 +9,7 @@ The record field lists come from `Gen/Codecs.lean` (regenerated from the Rust so
 source's *decode* sequence, re-encoding uses its *encode* sequence.
 -/
 import Brc20.Model.CodecRecords
+import Brc20.Model.Gas
 
 namespace Brc20.DriverC
 
@@ -48,6 +49,9 @@ def step (line : String) : String :=
     match hexToBytes hex with
     | some bs => decodeLine name bs
     | none => "bad-hex"
+  | ["gas", n] =>
+    -- `get_gas_limit` / `get_inscription_byte_len` with GAS_PER_BYTE = 12000 (pinned to Gen by Props/C16)
+    toString (Gas.gasLimit 12000 n.toNat!) ++ " " ++ toString (Gas.byteLenOf 12000 n.toNat!)
   | ["ord", a, b] =>
     match hexToBytes a, hexToBytes b with
     | some x, some y => if bytesLt x y then "lt" else if bytesLt y x then "gt" else "eq"
